@@ -106,7 +106,7 @@ def main():
              "kind_free_text": "Python wrapper: rebuilds the harness from /repo's working tree, runs the monitor(s) and sanitizer stages, applies known_findings.json, writes evidence, prints VIOLATION/KNOWN-FINDING/INCONCLUSIVE lines"},
         ],
         "checks": checks,
-        "notes": "Technique family: runtime monitoring and sanitizers. Exit codes: 0 held on what was observed, 1 VIOLATION, 2 INCONCLUSIVE (never mapped to violation). Known findings: known_findings.json.",
+        "notes": "Technique family: runtime monitoring and sanitizers. Exit codes: 0 held on what was observed, 1 VIOLATION, 2 INCONCLUSIVE (never mapped to violation). Known findings: known_findings.json. The level texts give the core of each workload; the input classes and oracles added after the three rounds of seeded changes and the mutation sweep (scaling invariance, live-object and after-shrink histories, aliasing, oversubscribed callers, constructed dividends, offset grids, ...) are listed in DESIGN.md sections 10 and 12 and in the `rule` text of every evidence file. Calibration of detection power: 120 seeded changes (seeded/), 28 hand-written mutants (tools/mutants.py), automatic mutation sweep (tools/mutsweep.py, mutation/results.jsonl).",
         "not_applicable": na,
     }
     with open(os.path.join(ROOT, "MANIFEST.json"), "w") as f:
